@@ -131,6 +131,14 @@ def check(ctx, adoc0, cfg, classes=()):
       if extra:
         ctx.violation("style-left:" + extra[0], f"{what}: {el.kind}#{el.id} still carries {extra}", payload)
         break
+      # "as configured": with a configured colour the only value left anywhere is the configured one
+      bad = [(k, prop) for k, prop in (("color", "Color"), ("bg_color", "BackgroundColor"))
+             if k in cfg and prop in el.styles and tuple(el.styles[prop][1]) != color_of(cfg[k])]
+      if bad:
+        ctx.count("clause:configured-colour-only")
+        ctx.violation("style-left:" + bad[0][1] + ":not-the-configured", f"{what}: {el.kind}#{el.id} still carries {bad[0][1]} "
+                      f"{el.styles[bad[0][1]][1]} although {bad[0][0]} is configured", payload)
+        break
   extra_init = sorted(set(post.initials) - ALLOWED)
   if extra_init:
     ctx.violation("initial-left:" + extra_init[0], f"{what}: initial values {extra_init} left", payload)
